@@ -320,6 +320,57 @@ def span_jobs():
                        [(None, None, {}, a[0], a[1], a[2]), (None, None, {}, b[0], b[1], b[2])])
 
 
+def item_kind_jobs():
+    """Spans and alignment are copied to the item whatever the item holds (widget, nested layout, spacer)."""
+    for lay in ("QGridLayout", "QFormLayout", "QVBoxLayout", "QHBoxLayout"):
+        for kind in ("QLabel", "QWidget", "QVBoxLayout", "QGridLayout", "QFormLayout", "QSpacerItem"):
+            for al in (None, "Qt.AlignLeft", "Qt.AlignRight | Qt.AlignTop", "Qt.AlignCenter"):
+                for span in ((None, None), (2, None), (None, 2), (2, 3)):
+                    if span != (None, None) and lay != "QGridLayout":
+                        continue
+                    yield (lay, kind, al, span)
+
+
+def judge_item_kind(t, vd, cid, lay_cls, kind, al, span):
+    lay = qml.Obj(lay_cls, "lay")
+    lay.add(qml.Obj("QLabel", "c0"))
+    c = qml.Obj(kind, "c1")
+    if al is not None:
+        c.add(qml.B("QLayout.alignment", al))
+    if span[0] is not None:
+        c.add(qml.B("QLayout.rowSpan", str(span[0])))
+    if span[1] is not None:
+        c.add(qml.B("QLayout.columnSpan", str(span[1])))
+    lay.add(c)
+    lay.add(qml.Obj("QLabel", "c2"))
+    src = qml.render(qml.Obj("QWidget", "root", [lay]), oneline=True)
+    case = {"id": cid, "family": "item-kinds", "source": src, "item_kind": [lay_cls, kind, al, list(span)]}
+    r = vd.job({"id": cid, "source": src, "modes": ["generate"]})
+    if r.get("crashed") or r.get("timeout") or "modes" not in r or r["modes"]["generate"].get("status") == "panic":
+        t.lost.append({"id": cid})
+        return
+    g = r["modes"]["generate"]
+    t.inc("documents")
+    t.inc("family:item-kinds")
+    t.distinct.add(src)
+    if not vc.accepted(g, r.get("has_syntax_error")):
+        t.violation("rejected-a-valid-layout", dict(case, diagnostics=g.get("diagnostics")))
+        return
+    e = uiread.find_object(uiread.parse(g["ui"]), "c1")
+    it = e.parent if e is not None else None
+    if it is None or it.tag != "item":
+        t.violation("item-count", dict(case, problem="child c1 is not inside an <item>"))
+        return
+    t.inc("cells_checked")
+    want = al.replace("Qt.", "Qt::").replace(" | ", "|") if al is not None else None
+    if it.attrs.get("alignment") != want:
+        t.violation("alignment-not-copied" if want is not None else "alignment-invented",
+                    dict(case, expected=want, got=it.attrs.get("alignment")))
+    for attr, v in (("rowspan", span[0]), ("colspan", span[1])):
+        if it.attrs.get(attr) != (str(v) if v is not None else None):
+            t.violation(f"span-not-copied:{attr}", dict(case, expected=v, got=it.attrs.get(attr)))
+
+
 def box_jobs(tier):
     maxlen = 5 if tier == "thorough" else 4
     for cls, attr in (("QVBoxLayout", "rowStretch"), ("QHBoxLayout", "columnStretch")):
@@ -388,6 +439,10 @@ def shard_work(shard, nshards, payload):
         if k % nshards != shard:
             continue
         judge_box(t, vd, f"box/{k}", cls, attr, seq)
+    for k, (lay_cls, kind, al, span) in enumerate(item_kind_jobs()):
+        if k % nshards != shard:
+            continue
+        judge_item_kind(t, vd, f"item-kind/{k}", lay_cls, kind, al, span)
     return t
 
 
@@ -423,7 +478,10 @@ def replay(path):
     case = r["case"]
     vd = vc.VDrive()
     t = vc.Tally()
-    if "box" in case:
+    if "item_kind" in case:
+        lay_cls, kind, al, span = case["item_kind"]
+        judge_item_kind(t, vd, 0, lay_cls, kind, al, tuple(span))
+    elif "box" in case:
         cls, attr, seq = case["box"]
         judge_box(t, vd, 0, cls, attr, tuple(seq))
     else:
